@@ -16,7 +16,7 @@ RULE = ("npy: files written by write_npy (shapes with 1-5 axes) and by numpy (al
         "be rejected by Array::read_npy and by the model (exhaustive per file; quick: files capped at 400 bytes of data, "
         "thorough: all); text: every removal and insertion of one value token, every single-entry edit of the shape, an "
         "empty value line; on the binary (a slice): view, fold and stat on the damaged file exit non-zero, print no "
-        "spectrum / statistics row, and do not panic. non-trivial = damage inside the value region; files whose data begins with spaces / line feeds (the bytes that pad and end the header)")
+        "spectrum / statistics row, and do not panic. non-trivial = damage inside the value region; files whose data begins with spaces / line feeds (the bytes that pad and end the header); extensions that are (the beginning of) another spectrum file: the npy magic, a second npy file, a text spectrum")
 
 
 def check(rep, tier, seed):
@@ -61,6 +61,14 @@ def check(rep, tier, seed):
                 kind = "whitespace-extension" if ext in ws else "extension"
                 cases.append("npyr %s" % (b + ext).hex()); labels.append((lab, "%s +%d" % (kind, k)))
                 cases.append("read %s" % (b + ext).hex()); labels.append((lab, "%s +%d (detecting reader)" % (kind, k)))
+    # ... and extensions that are themselves the beginning of, or a whole, spectrum file: two npy files back to back (what
+    # appending to a file gives), the magic alone, a text spectrum after the data - one spectrum per file, nothing after it
+    magic_ = b"\x93NUMPY"
+    txt_ = b"#SHAPE=<2>\n1 2\n"
+    for lab, b in blobs[:12] + blobs[-4:]:
+        for ext in [magic_, magic_ + b"\x01\x00", magic_ + b"\x01\x00\x76\x00{'descr", b, blobs[0][1], b[:len(b) // 2], txt_, b"#SHAPE", b"\n" + txt_]:
+            cases.append("npyr %s" % (b + ext).hex()); labels.append((lab, "spectrum-like-extension +%d" % len(ext)))
+            cases.append("read %s" % (b + ext).hex()); labels.append((lab, "spectrum-like-extension +%d (detecting reader)" % len(ext)))
     mo, outs = compare_cases(rep, "npy-damage", cases, nontrivial=lambda c, m: True,
                              classify=lambda c, m, i: "damage:model-vs-impl", spec=True, both_builds=(tier == "thorough"))
     uniq = list(dict.fromkeys(cases)); pos = {c: k for k, c in enumerate(uniq)}
